@@ -1570,7 +1570,7 @@ func (m *batchLocateRangesMerger) appendRegion(uncachedRegion *Region) {
 		return
 	}
 	for ; m.cachedIdx < len(m.cachedRegions); m.cachedIdx++ {
-		if m.lastEndKey != nil && bytes.Compare(*m.lastEndKey, m.cachedRegions[m.cachedIdx].EndKey()) >= 0 {
+		if m.coveredByLoaded(m.cachedRegions[m.cachedIdx]) {
 			// skip the cached region that is covered by the uncached region.
 			continue
 		}
@@ -1586,13 +1586,23 @@ func (m *batchLocateRangesMerger) appendRegion(uncachedRegion *Region) {
 func (m *batchLocateRangesMerger) build() []*KeyLocation {
 	// append the rest cache hit regions
 	for ; m.cachedIdx < len(m.cachedRegions); m.cachedIdx++ {
-		if m.lastEndKey != nil && bytes.Compare(*m.lastEndKey, m.cachedRegions[m.cachedIdx].EndKey()) >= 0 {
+		if m.coveredByLoaded(m.cachedRegions[m.cachedIdx]) {
 			// skip the cached region that is covered by the uncached region.
 			continue
 		}
 		m.appendKeyLocation(m.cachedRegions[m.cachedIdx])
 	}
 	return m.mergedLocations
+}
+
+// coveredByLoaded reports whether the cached region ends at or before the end key of the last loaded region.
+// An empty end key of the cached region means +inf, which a loaded region with a non-empty end key never covers.
+func (m *batchLocateRangesMerger) coveredByLoaded(cached *Region) bool {
+	if m.lastEndKey == nil {
+		return false
+	}
+	endKey := cached.EndKey()
+	return len(endKey) > 0 && bytes.Compare(*m.lastEndKey, endKey) >= 0
 }
 
 // rangesAfterKey split the key ranges and return the rest ranges after splitKey.
